@@ -135,6 +135,19 @@ class StdVector(Plugin):
         return None
 
     def free_call(self, unit, name, rd, args, n):
+        if name in ('push_heap', 'pop_heap', 'make_heap') and len(args) in (2, 3):
+            # std heap algorithms over a whole modelled container: stub v_<name>(&container) whose contract (heap typestate, which element
+            # ends up where) the spec supplies; the comparator object is not evaluated
+            b = unit.strip_tmp(args[0])
+            while b['kind'] in ('ImplicitCastExpr', 'CXXConstructExpr', 'MaterializeTemporaryExpr', 'CXXBindTemporaryExpr') and unit.kids(b): b = unit.strip_tmp(unit.kids(b)[0])
+            if b['kind'] == 'CXXMemberCallExpr':
+                me = unit.kids(b)[0]
+                while me['kind'] in ('ParenExpr', 'ImplicitCastExpr'): me = unit.kids(me)[0]
+                if me.get('name') in ('begin', 'cbegin') and self._cn(unit, unit.kids(me)[0]):
+                    base = unit.kids(me)[0]
+                    unit.count_call('v_' + name)
+                    return 'v_%s(%s)' % (name, self._recv(unit, base, me.get('isArrow')))
+            raise Unsupported('std::%s over something other than container.begin(), container.end() (in %s)' % (name, unit.cur))
         if name in ('find', 'find_if') and len(args) == 3 and self.node_iter(args[0]):
             # std::find / std::find_if over vector/deque iterators: first position that matches, else last (model of the library algorithm)
             elem = unit.ctype(self.node_iter(args[0])[1])
